@@ -15,8 +15,9 @@ type VerifIface struct {
 
 // VerifHost is the host configuration the seams below answer from; the harness fills it.
 var VerifHost struct {
-	Ifaces []VerifIface
-	Routes []netlink.Route
+	Ifaces  []VerifIface
+	Routes  []netlink.Route // the IPv4 main table
+	Routes6 []netlink.Route // IPv6 routes: only a dump of another family than AF_INET sees them
 }
 
 func verifSeam_Interfaces() ([]net.Interface, error) {
@@ -47,5 +48,13 @@ func verifSeam_InterfaceByIndex(idx int) (*net.Interface, error) {
 }
 
 func verifSeam_RouteList(link netlink.Link, family int) ([]netlink.Route, error) {
-	return VerifHost.Routes, nil
+	const afInet = 2
+	if family == afInet {
+		return VerifHost.Routes, nil
+	}
+	out := append([]netlink.Route{}, VerifHost.Routes6...)
+	if family == 0 { // all families
+		out = append(out, VerifHost.Routes...)
+	}
+	return out, nil
 }
